@@ -125,6 +125,11 @@ pub enum Event {
     /// a genuine peer announcement whose additional section also carries records of names that
     /// are not strict subdomains of the watched service
     PeerWithForeignAdditional(Desc),
+    /// a peer announcement with the cache-flush bit on every record (what mDNS responders send
+    /// for records they own exclusively)
+    PeerFlush(Desc),
+    /// the records of a peer with TTL 0 and the cache-flush bit (a goodbye)
+    Goodbye(Desc),
     Own,
     ServiceNameRecord,
     Foreign(Desc),
@@ -142,6 +147,18 @@ fn event_bytes(e: &Event, own: &Desc) -> Result<Vec<u8>, String> {
             p.additional_records.push(ResourceRecord::new(host.clone(), CLASS::IN, 120, RData::A(simple_dns::rdata::A { address: 0x0a090909 })));
             p.additional_records.push(ResourceRecord::new(other.clone(), CLASS::IN, 120, RData::SRV(simple_dns::rdata::SRV { priority: 0, weight: 0, port: 9999, target: host.clone() })));
             p.additional_records.push(ResourceRecord::new(service_name(), CLASS::IN, 120, RData::TXT(simple_dns::rdata::TXT::new().with_string("leak=1").map_err(|e| format!("{:?}", e))?)));
+            p.build_bytes_vec_compressed().map_err(|e| format!("{:?}", e))
+        }
+        Event::PeerFlush(d) | Event::Goodbye(d) => {
+            let bytes = announcement(d, SERVICE)?;
+            let mut p = Packet::parse(&bytes).map_err(|e| format!("{:?}", e))?.clone();
+            let goodbye = matches!(e, Event::Goodbye(_));
+            for r in p.answers.iter_mut().chain(p.additional_records.iter_mut()) {
+                r.cache_flush = true;
+                if goodbye {
+                    r.ttl = 0;
+                }
+            }
             p.build_bytes_vec_compressed().map_err(|e| format!("{:?}", e))
         }
         Event::Own => announcement(own, SERVICE),
@@ -190,13 +207,22 @@ pub fn check_history(events: &[Event]) -> Vec<Finding> {
             let own_full = full_name(OWN, SERVICE);
             let sn = service_name();
             let mut expected: BTreeMap<String, Desc> = BTreeMap::new();
+            // peers whose last event was a goodbye: whether they are still listed is C20's matter
+            let mut unjudged: BTreeSet<String> = BTreeSet::new();
             for (ei, e) in events.iter().enumerate() {
                 let bytes = event_bytes(e, &own)?;
                 let packet = Packet::parse(&bytes).map_err(|e| format!("announcement does not parse: {:?}", e))?;
                 add_response_to_resources(packet, &sn, &own_full, &mut store, &mut chan);
                 let notified: Vec<Desc> = rx.try_iter().map(|i| Desc::of(&i)).collect();
                 let want: Vec<Desc> = match e {
-                    Event::Peer(d) | Event::PeerWithForeignAdditional(d) => {
+                    Event::Goodbye(d) => {
+                        expected.remove(&d.name);
+                        unjudged.insert(d.name.clone());
+                        rx.try_iter().count();
+                        continue;
+                    }
+                    Event::Peer(d) | Event::PeerWithForeignAdditional(d) | Event::PeerFlush(d) => {
+                        unjudged.remove(&d.name);
                         expected.insert(d.name.clone(), d.clone());
                         if with_channel {
                             vec![d.clone()]
@@ -209,6 +235,8 @@ pub fn check_history(events: &[Event]) -> Vec<Finding> {
                 if notified != want {
                     let tag = match e {
                         Event::Peer(_) => "channel-peer",
+                        Event::PeerFlush(_) => "channel-peer-cache-flush",
+                        Event::Goodbye(_) => "channel-goodbye",
                         Event::PeerWithForeignAdditional(_) => "channel-peer-foreign-additional",
                         Event::Own => "channel-own-instance",
                         Event::ServiceNameRecord => "channel-service-name",
@@ -218,7 +246,7 @@ pub fn check_history(events: &[Event]) -> Vec<Finding> {
                     bad.push((tag.to_string(), format!("event {} {:?}: channel delivered {:?}, expected {:?}", ei, e, notified, want)));
                 }
             }
-            let known = known_services(&store);
+            let known: Vec<Desc> = known_services(&store).into_iter().filter(|d| !unjudged.contains(&d.name)).collect();
             let want: Vec<Desc> = expected.values().cloned().collect();
             if known != want {
                 let tag = if known.len() > want.len() {
@@ -256,6 +284,87 @@ pub fn check_escape(s: &str) -> Vec<Finding> {
                 vec![]
             }
         }
+    }
+}
+
+/// The public helpers an application uses to describe itself: address / port / socket-address to
+/// records, socket-address builders and the socket-address product of an instance.
+pub fn check_helpers(ip: IpAddr, port: u16) -> Vec<Finding> {
+    use simple_mdns::conversion_utils::{hashmap_to_txt, ip_addr_to_resource_record, port_to_srv_record, socket_addr_to_srv_and_address};
+    let case = json!({"kind": "helpers", "ip": ip.to_string(), "port": port});
+    let r = guarded(|| {
+        let mut bad: Vec<(String, String)> = Vec::new();
+        let name = Name::new_unchecked("me._svc._tcp.local");
+        let check_addr = |rr: &ResourceRecord, bad: &mut Vec<(String, String)>, how: &str| {
+            let ok = match (&rr.rdata, ip) {
+                (RData::A(a), IpAddr::V4(v4)) => a.address == u32::from(v4),
+                (RData::AAAA(a), IpAddr::V6(v6)) => a.address == u128::from(v6),
+                _ => false,
+            };
+            if !ok || rr.name != name || rr.ttl != 77 || rr.class != CLASS::IN {
+                bad.push((format!("helpers|{}", how), format!("{} for {} gives {:?}", how, ip, rr)));
+            }
+        };
+        let check_srv = |rr: &ResourceRecord, bad: &mut Vec<(String, String)>, how: &str| {
+            let ok = match &rr.rdata {
+                RData::SRV(s) => s.port == port && s.target == name,
+                _ => false,
+            };
+            if !ok || rr.name != name || rr.ttl != 77 {
+                bad.push((format!("helpers|{}", how), format!("{} for port {} gives {:?}", how, port, rr)));
+            }
+        };
+        check_addr(&ip_addr_to_resource_record(&name, ip, 77), &mut bad, "ip_addr_to_resource_record");
+        check_srv(&port_to_srv_record(&name, port, 77), &mut bad, "port_to_srv_record");
+        let (srv, addr) = socket_addr_to_srv_and_address(&name, std::net::SocketAddr::new(ip, port), 77);
+        check_srv(&srv, &mut bad, "socket_addr_to_srv_and_address.0");
+        check_addr(&addr, &mut bad, "socket_addr_to_srv_and_address.1");
+        let mut attrs = HashMap::new();
+        attrs.insert("k".to_string(), Some(format!("{}", port)));
+        attrs.insert("flag".to_string(), None);
+        match hashmap_to_txt(&name, attrs.clone(), 77) {
+            Ok(rr) => match &rr.rdata {
+                RData::TXT(t) if t.attributes() == attrs && rr.name == name && rr.ttl == 77 => {}
+                other => bad.push(("helpers|hashmap_to_txt".into(), format!("{:?}", other))),
+            },
+            Err(e) => bad.push(("helpers|hashmap_to_txt".into(), format!("{:?}", e))),
+        }
+        // with_socket_address == with_ip_address + with_port; get_socket_addresses is the product
+        let other_ip: IpAddr = "10.7.7.7".parse().unwrap();
+        let a = InstanceInformation::new("i".into()).with_socket_address(std::net::SocketAddr::new(ip, port));
+        let b = InstanceInformation::new("i".into()).with_ip_address(ip).with_port(port);
+        if a != b {
+            bad.push(("helpers|with_socket_address".into(), format!("with_socket_address({}:{}) = {:?}, with_ip_address + with_port = {:?}", ip, port, a, b)));
+        }
+        let c = b.clone().with_ip_address(other_ip).with_port(port.wrapping_add(1));
+        let got: BTreeSet<std::net::SocketAddr> = c.get_socket_addresses().collect();
+        let mut want = BTreeSet::new();
+        for i in [ip, other_ip] {
+            for p in [port, port.wrapping_add(1)] {
+                want.insert(std::net::SocketAddr::new(i, p));
+            }
+        }
+        if got != want {
+            bad.push(("helpers|get_socket_addresses".into(), format!("{:?} expected {:?}", got, want)));
+        }
+        // and through records: into_records -> from_records gives the same instance back
+        let full = Name::new_unchecked("i._svc._tcp.local");
+        match c.clone().into_records(&full, 120) {
+            Ok(recs) => match instance_from_records(&Name::new_unchecked("_svc._tcp.local"), recs.iter()) {
+                Some(back) => {
+                    if back != c {
+                        bad.push(("helpers|records-roundtrip".into(), format!("{:?} came back as {:?}", c, back)));
+                    }
+                }
+                None => bad.push(("helpers|records-roundtrip".into(), "no instance from its own records".into())),
+            },
+            Err(e) => bad.push(("helpers|into_records".into(), format!("{:?}", e))),
+        }
+        bad
+    });
+    match r {
+        Err(pn) => vec![finding(format!("C15|helpers|{}", pn.sig()), format!("{:?}", pn), case)],
+        Ok(bad) => bad.into_iter().map(|(t, d)| finding(format!("C15|{}", t), d, case.clone())).collect(),
     }
 }
 
@@ -312,6 +421,9 @@ pub fn run(ctx: &Ctx) {
         Event::Peer(d2.clone()),
         Event::Peer(d3.clone()),
         Event::PeerWithForeignAdditional(d2.clone()),
+        Event::PeerFlush(d1.clone()),
+        Event::Goodbye(d1.clone()),
+        Event::Goodbye(d2.clone()),
         Event::Own,
         Event::ServiceNameRecord,
         Event::Foreign(d1.clone()),
@@ -337,7 +449,7 @@ pub fn run(ctx: &Ctx) {
         for h in hs.iter() {
             t.evals += 1;
             t.transitions += 2 * h.len() as u64;
-            if h.iter().any(|e| matches!(e, Event::Peer(_) | Event::PeerWithForeignAdditional(_))) {
+            if h.iter().any(|e| matches!(e, Event::Peer(_) | Event::PeerWithForeignAdditional(_) | Event::PeerFlush(_))) {
                 t.nontrivial += 1;
             }
             let f = check_history(h);
@@ -348,7 +460,7 @@ pub fn run(ctx: &Ctx) {
         }
     });
     ctx.add_states(hists.len() as u64 + descs.len() as u64);
-    ctx.space(&format!("announcement histories: every sequence of <= {} events over an 8-event menu", depth), hists.len() as u64, "complete");
+    ctx.space(&format!("announcement histories: every sequence of <= {} events over an 11-event menu (incl. cache-flush announcements and goodbyes before / after plain announcements)", depth), hists.len() as u64, "complete");
     // escape / unescape
     let mut strs: Vec<String> = Vec::new();
     let mut b = Vec::new();
@@ -369,6 +481,34 @@ pub fn run(ctx: &Ctx) {
     });
     ctx.space(&format!("escape/unescape: all strings of length <= {} over {{a, '.', '\\'}}", ctx.tier.pick(8, 10)), strs.len() as u64, "complete");
     ctx.sample(json!({"kind": "escape", "s": "a.\\.\\\\"}));
+    {
+        // helper conversions: every port with a v4 and a v6 address; walking-bit addresses
+        let mut cases: Vec<(IpAddr, u16)> = Vec::new();
+        for port in 0..=65535u16 {
+            cases.push((if port % 2 == 0 { "192.0.2.1".parse().unwrap() } else { "2001:db8::1".parse().unwrap() }, port));
+        }
+        for bit in 0..32 {
+            cases.push((IpAddr::V4(std::net::Ipv4Addr::from(1u32 << bit)), 5353));
+            cases.push((IpAddr::V4(std::net::Ipv4Addr::from(!(1u32 << bit))), 5353));
+        }
+        for bit in 0..128 {
+            cases.push((IpAddr::V6(std::net::Ipv6Addr::from(1u128 << bit)), 5353));
+        }
+        let hchunks: Vec<&[(IpAddr, u16)]> = cases.chunks(2048).collect();
+        par_shards(ctx, &hchunks, |cs, t: &mut Tally| {
+            for (ip, port) in cs.iter() {
+                t.evals += 1;
+                t.nontrivial += 1;
+                let f = check_helpers(*ip, *port);
+                if !f.is_empty() {
+                    ctx.violations(f);
+                }
+            }
+            t.outcome("helpers");
+        });
+        ctx.space("helper conversions (ip_addr_to_resource_record, port_to_srv_record, socket_addr_to_srv_and_address, hashmap_to_txt, with_socket_address, get_socket_addresses, into_records -> from_records): every port 0..=65535, walking-bit IPv4 and IPv6 addresses", cases.len() as u64, "complete");
+        ctx.sample(json!({"kind": "helpers", "ip": "192.0.2.1", "port": 443}));
+    }
     {
         // every Unicode scalar value, alone and between the two special characters
         let cps: Vec<u32> = (0..=0x10ffffu32).filter(|c| char::from_u32(*c).is_some()).collect();
@@ -399,6 +539,7 @@ pub fn replay(case: &Value) -> Vec<Finding> {
             Err(e) => vec![finding("C15|replay-unreadable", format!("{}", e), case.clone())],
         },
         "escape" => check_escape(case["s"].as_str().unwrap_or("")),
+        "helpers" => check_helpers(case["ip"].as_str().unwrap_or("0.0.0.0").parse().unwrap_or(IpAddr::V4(std::net::Ipv4Addr::UNSPECIFIED)), case["port"].as_u64().unwrap_or(0) as u16),
         _ => vec![],
     }
 }
